@@ -62,6 +62,13 @@ pub struct Tcp2Cfg {
     /// the stream must still be a prefix (C01) and the connection must still complete once
     /// polling resumes
     pub allow_oversleep: bool,
+    /// the alphabet includes `SetKeepAlive` (the application switches keep-alive on in the middle
+    /// of the connection, once per side)
+    pub allow_set_keepalive: bool,
+    /// both devices compute the TCP checksum on transmit (DeviceCapabilities checksum.tcp =
+    /// Checksum::Rx: the stack still verifies what it receives); the harness plays the device
+    /// and fills the checksum in when a frame leaves. IPv4 only
+    pub tx_offload_tcp: bool,
 }
 
 impl Tcp2Cfg {
@@ -91,11 +98,48 @@ impl Tcp2Cfg {
             burst: None,
             allow_blocked_tick: false,
             allow_oversleep: false,
+            allow_set_keepalive: false,
+            tx_offload_tcp: false,
         }
     }
 }
 
 /// the IP packet inside a frame of this configuration's medium (None: not IP, e.g. ARP)
+/// what a transmit-checksum-offloading device does to an IPv4/TCP frame: the TCP checksum is
+/// computed over pseudo-header and segment and written into the frame
+pub fn fill_tcp_checksum_v4(eth: bool, f: &mut [u8]) {
+    let o = if eth {
+        if f.len() < 14 || (f[12], f[13]) != (0x08, 0x00) {
+            return;
+        }
+        14
+    } else {
+        0
+    };
+    if f.len() < o + 20 || f[o] >> 4 != 4 || f[o + 9] != 6 {
+        return;
+    }
+    // fragments are left alone (none occur here)
+    if (u16::from_be_bytes([f[o + 6], f[o + 7]]) & 0x3fff) != 0 {
+        return;
+    }
+    let ihl = ((f[o] & 0x0f) as usize) * 4;
+    let total = u16::from_be_bytes([f[o + 2], f[o + 3]]) as usize;
+    if total < ihl + 20 || f.len() < o + total {
+        return;
+    }
+    let seg_len = total - ihl;
+    let t = o + ihl;
+    f[t + 16] = 0;
+    f[t + 17] = 0;
+    let mut ph = Vec::with_capacity(12);
+    ph.extend_from_slice(&f[o + 12..o + 20]);
+    ph.extend_from_slice(&[0, 6]);
+    ph.extend_from_slice(&(seg_len as u16).to_be_bytes());
+    let sum = !wc::rfc1071_sum(&[&ph, &f[t..t + seg_len]]);
+    f[t + 16..t + 18].copy_from_slice(&sum.to_be_bytes());
+}
+
 pub fn ip_part(eth: bool, f: &[u8]) -> Option<&[u8]> {
     if !eth {
         return Some(f);
@@ -132,6 +176,8 @@ pub enum Ev {
     BlockedDeliver { to: usize },
     /// both hosts are suspended for 2^31 ms + 1 s without a poll; frames in flight stay in flight
     Oversleep,
+    /// `side`'s application calls set_keep_alive(Some(300 ms)) now
+    SetKeepAlive { side: usize },
 }
 
 /// 2^31 ms + 1 s in microseconds
@@ -189,6 +235,7 @@ pub struct Tcp2 {
     pub emitted: Vec<(usize, Vec<u8>)>,
     pub keep_emitted: bool,
     pub cached_deadline: Option<i64>,
+    pub ka_set: [bool; 2],
 }
 
 pub const PORT_A: u16 = 49152;
@@ -210,6 +257,10 @@ pub fn pattern(side: usize, n: usize) -> Vec<u8> {
 impl Tcp2 {
     fn make_end(cfg: &Tcp2Cfg, side: usize) -> End {
         let mut dev = SimDevice::new(if cfg.eth { Medium::Ethernet } else { Medium::Ip }, if cfg.eth { cfg.mtu + 14 } else { cfg.mtu });
+        if cfg.tx_offload_tcp {
+            assert!(!cfg.v6, "tx_offload_tcp: IPv4 only");
+            dev.checksum.tcp = smoltcp::phy::Checksum::Rx;
+        }
         dev.max_burst = cfg.burst;
         let mut c = Config::new(if cfg.eth {
             HardwareAddress::Ethernet(smoltcp::wire::EthernetAddress([0x02, 0, 0, 0, 0, 1 + side as u8]))
@@ -362,7 +413,10 @@ impl Tcp2 {
         let frames = e.dev.take_tx();
         let n = frames.len();
         let rq = e.sockets.get::<tcp::Socket>(e.h).recv_queue();
-        for (i, (_ts, f)) in frames.into_iter().enumerate() {
+        for (i, (_ts, mut f)) in frames.into_iter().enumerate() {
+            if self.cfg.tx_offload_tcp {
+                fill_tcp_checksum_v4(self.cfg.eth, &mut f);
+            }
             match ip_part(self.cfg.eth, &f) {
                 Some(ip) => {
                     let ip = ip.to_vec();
@@ -595,7 +649,7 @@ impl Tcp2 {
             rx_cap: self.ends[side].rx_cap,
             recv_queue_after,
             only_frame_of_poll,
-            keep_alive: self.cfg.keep_alive_ms.is_some(),
+            keep_alive: self.cfg.keep_alive_ms.is_some() || self.ka_set[side],
             expect_isn: self.cfg.isn.map(|i| i[side]),
             window_clamped_by_device: self.cfg.burst.is_some(),
         };
@@ -658,6 +712,7 @@ impl Harness for Tcp2 {
             emitted: vec![],
             keep_emitted: false,
             cached_deadline: None,
+            ka_set: [false, false],
         };
         if cfg.prefix != 0 {
             t.first_connection(cfg.prefix);
@@ -741,6 +796,13 @@ impl Harness for Tcp2 {
         if self.cfg.allow_oversleep {
             v.push((Ev::Oversleep, 1));
         }
+        if self.cfg.allow_set_keepalive {
+            for side in 0..2 {
+                if !self.ka_set[side] && self.ends[side].state() != State::Closed {
+                    v.push((Ev::SetKeepAlive { side }, 1));
+                }
+            }
+        }
         if self.cfg.allow_stall {
             for side in 0..2 {
                 let e = &self.ends[side];
@@ -811,6 +873,10 @@ impl Harness for Tcp2 {
                 if let Some(d) = self.cached_deadline {
                     self.now = d;
                 }
+            }
+            Ev::SetKeepAlive { side } => {
+                self.ka_set[side] = true;
+                self.ends[side].sock().set_keep_alive(Some(Duration::from_millis(300)));
             }
             Ev::Oversleep => {
                 // same rule as for Tick: an application that has been told nothing more can
@@ -1038,6 +1104,13 @@ pub fn configs(tier: Tier) -> Vec<(Tcp2Cfg, u32)> {
     let ka2 = Tcp2Cfg { keep_alive_ms: Some(300), len: [60, 0], chunk: 25, ..b("keepalive-300ms-chunk25") };
     let blocked_fr = Tcp2Cfg { allow_blocked_tick: true, allow_stall: false, rx: [64, 512], tx: [512, 64], len: [240, 0], ..b("blocked-fast-retransmit") };
     let reuse2 = Tcp2Cfg { prefix: 2, len: [60, 20], ..b("reuse-after-close") };
+    // keep-alive switched on by the application in the middle of the connection; 41 octets with
+    // an MSS of 40 leave a one-octet segment as the unacknowledged tail
+    let setka = Tcp2Cfg { allow_set_keepalive: true, len: [41, 0], allow_stall: false, ..b("set-keepalive-midway-len41") };
+    let setka2 = Tcp2Cfg { allow_set_keepalive: true, len: [30, 11], chunk: 10, nagle: false, ..b("set-keepalive-midway-bidir") };
+    // devices that compute the TCP checksum on transmit; the stack must still verify on receive
+    let offl = Tcp2Cfg { tx_offload_tcp: true, allow_corrupt: true, len: [50, 0], ..b("corrupt-tx-offload") };
+    let offl_eth = Tcp2Cfg { tx_offload_tcp: true, allow_corrupt: true, eth: true, len: [47, 13], chunk: 9, nagle: false, allow_stall: false, ..b("corrupt-tx-offload-eth") };
     // both hosts suspended for 25 days at any point of the connection
     let over = Tcp2Cfg { allow_oversleep: true, len: [60, 20], ..b("oversleep-bidir") };
     let over_cubic = Tcp2Cfg { allow_oversleep: true, cc: 2, len: [120, 0], rx: [64, 256], tx: [256, 64], ..b("oversleep-cubic") };
@@ -1058,6 +1131,10 @@ pub fn configs(tier: Tier) -> Vec<(Tcp2Cfg, u32)> {
     }
     match tier {
         Tier::Quick => {
+            v.push((setka, 3));
+            v.push((setka2, 2));
+            v.push((offl, 2));
+            v.push((offl_eth, 2));
             v.push((over, 3));
             v.push((over_cubic, 3));
             v.push((over_ka, 3));
@@ -1092,6 +1169,10 @@ pub fn configs(tier: Tier) -> Vec<(Tcp2Cfg, u32)> {
             v.push((wrap40, 2));
         }
         Tier::Thorough => {
+            v.push((setka, 4));
+            v.push((setka2, 3));
+            v.push((offl, 3));
+            v.push((offl_eth, 3));
             v.push((over, 4));
             v.push((over_cubic, 4));
             v.push((over_ka, 4));
